@@ -150,6 +150,7 @@ func main() {
 	traceLog := flag.Bool("tracelog", false, "record per-run trace hashes (determinism self-test)")
 	maxViol := flag.Int("maxviol", 3, "stop after this many distinct violations")
 	dump := flag.Bool("dump", false, "debug: print per-scenario cost")
+	dumpSeed := flag.Uint64("dumpseed", 0, "debug: run one seed, print the scenario and the yields per op")
 	flag.Parse()
 	debug.SetGCPercent(200)
 	runtime.GOMAXPROCS(2)
@@ -174,6 +175,21 @@ func main() {
 	if !ok {
 		fmt.Fprintln(os.Stderr, "worker: unknown property", *prop)
 		os.Exit(2)
+	}
+	if *dumpSeed != 0 {
+		sc, o := wd.gen(*dumpSeed, *tier)
+		if o == nil || (o.Violation == nil && o.Infra == "") {
+			o = wd.run(sc)
+		}
+		b, _ := json.Marshal(abbreviate(sc))
+		fmt.Println(string(b))
+		for t := range o.Results {
+			for i, r := range o.Results[t] {
+				fmt.Printf("task %d op %d %s yields=%d %s\n", t, i, sc.Tasks[t].Ops[i].Name, r.Yields, r.Short())
+			}
+		}
+		fmt.Println("infra:", o.Infra, "violation:", o.Violation != nil, "steps:", o.Steps)
+		return
 	}
 	start := time.Now()
 	sum := &Summary{Property: *prop, Worker: *worker, SeedFirst: *seed0, Counters: map[string]int{}, KnownSeen: map[string]int{}}
